@@ -14,6 +14,7 @@
 import GruleModel.Syntax.Build
 import GruleModel.Properties.C16
 import GruleModel.Properties.SyntaxTie
+import GruleModel.Proofs.ParseDoc
 namespace Grule.C17
 open Grule Grule.Syntax Grule.C16
 
@@ -173,12 +174,24 @@ example : (front "rule R { when F.I == 9223372036854775808 then F.I = 2; }".toLi
 example : (front "rule R salience 2147483648 { when true then F.I = 2; }".toList).verdict = .salience := by decide +kernel
 example : (front "rule R { when F.S == \"a\\qb\" then F.I = 2; }".toList).verdict = .literal := by decide +kernel
 
+/-- **every valid document is grammatical for the parser model** (token level): any sequence of well-formed rules —
+    any number of rules, any nesting depth — is read back from its tokens as exactly these rules, with no error
+    (`Proofs/ParseDoc.parse_doc`, the print/parse round trip R10). What is not proved: that the lexer turns a rendering of
+    these tokens (spacing, comments, keyword case, literal notations) back into them, and the converse direction (a text
+    the recogniser accepts derives from the grammar). -/
+theorem C17_valid_documents_parse (d : Dec) (cT : Const → List Token) (ot : BinOp → List Char) (dT : String → Token)
+    (hc : ParseAtoms.ConstOK d cT) (rules : List Rule) (hw : ∀ r ∈ rules, ParseDoc.WFRule r ∧ ParseDoc.DescOK dT r.desc) (f n : Nat)
+    (hf : ∀ r ∈ rules, ParseDoc.nRule r ≤ f) (hn : rules.length + 1 ≤ n) :
+    parseRules d (f + 1) n (ParseDoc.fDoc cT ot dT rules) [] = (rules, none) :=
+  ParseDoc.parse_doc d cT ot dT hc rules hw f n hf hn
+
 #print axioms C17_accepted_all_present
 #print axioms C17_rejected_harmless
 #print axioms C17_rejected_same_instances
 #print axioms C17_existing_rules_stay
 #print axioms front_rules_only_when_accepted
 #print axioms accepted_means
+#print axioms C17_valid_documents_parse
 #print axioms Grule.SyntaxTie.tie_lexer_order
 #print axioms Grule.SyntaxTie.tie_lexer_fixed
 #print axioms Grule.SyntaxTie.tie_isc
